@@ -74,6 +74,12 @@ func ReplayMonitors(prop string, k *mon.KnownSet) []eng.Monitor {
 	return nil
 }
 
+// HasReplay: the property's handler re-executes its own replay files.
+func HasReplay(prop string) bool {
+	h := handlers[prop]
+	return h != nil && h.replay != nil
+}
+
 func Replay(prop string, bz []byte, k *mon.KnownSet, replayDir string) int {
 	if h := handlers[prop]; h != nil && h.replay != nil {
 		return h.replay(bz, k, replayDir)
